@@ -1,7 +1,7 @@
 (* Extraction of the executable models (ExtrOcamlBasic only: bool, option,
    list, prod, unit, sumbool map to OCaml's; Z/N/positive stay inductive). *)
 From Coq Require Import Extraction ExtrOcamlBasic.
-From STS Require Import Model.Ranges Model.Chunk Model.Queue Model.LogM Model.Stage Model.Sender.
+From STS Require Import Model.Ranges Model.Chunk Model.Queue Model.LogM Model.Stage Model.Sender Model.Conf.
 Extraction Language OCaml.
 Set Extraction Optimize.
 Extraction "model.ml"
@@ -14,4 +14,5 @@ Extraction "model.ml"
   search line_matches parse_line line_recv line_sent walk no_sep split join
   init_stage sstep prepare receive settle restart clean timers_fire received_q status_q scan_q
   ahas alookup log_has SETTLE_FUEL
-  run_send on_poll track_add.
+  run_send on_poll track_add
+  effective reencode parse_tag propagate_tags.
